@@ -705,8 +705,14 @@ func (sh *SyncHandler) addBlobToCopy(sb blob.SizedRef) bool {
 }
 
 func (sh *SyncHandler) enqueue(sb blob.SizedRef) error {
-	if !sh.addBlobToCopy(sb) {
-		// Dup
+	// Persist first, and only then track the blob in memory: if the
+	// blob were in needCopy without being in the queue (because Set
+	// failed), a retried upload of it would be taken for a dup below
+	// and acknowledged without any durable record of the pending copy.
+	sh.mu.Lock()
+	_, dup := sh.needCopy[sb.Ref]
+	sh.mu.Unlock()
+	if dup {
 		return nil
 	}
 	// TODO: include current time in encoded value, to attempt to
@@ -716,6 +722,7 @@ func (sh *SyncHandler) enqueue(sb blob.SizedRef) error {
 	if err := sh.queue.Set(sb.Ref.String(), fmt.Sprint(sb.Size)); err != nil {
 		return err
 	}
+	sh.addBlobToCopy(sb)
 	return nil
 }
 
